@@ -672,6 +672,76 @@ func init() {
 		finish(x, n, ss, "")
 	})
 
+	// S-late-newview-vs-next-election: member 2 leads view 2. It has timed out into view 1 (prefix) and already holds two
+	// votes for view 2. Then three things race: the LATE NEW_VIEW of view 1 (correct leader, fresh block), the expiry of
+	// the node's (h1,v1) timer, and a third vote for view 2. However the worker and the main loop interleave, the node
+	// signs at most ONE proposal for view 2 (C10) and never sends PREPARE for view 1 after it has moved to view 2.
+	registerBoth("S-late-newview-vs-next-election", []string{"C10", "C13", "C19"}, 2, 3, 4, func(x *X, cancel bool) {
+		n := newNode(x, 2)
+		n.Boot()
+		s := x.S
+		s.PrefixFires = 1
+		s.NoBranch = true
+		s.Run(20000) // the (h1,v0) timer expires: the node is in view 1
+		s.PrefixFires = 0
+		s.NoBranch = false
+		feed(n, []*interfaces.ConsensusRawMessage{
+			n.fac(0, nil).CreateViewChangeMessage(1, 2, nil).ToConsensusRawMessage(),
+			n.fac(1, nil).CreateViewChangeMessage(1, 2, nil).ToConsensusRawMessage(),
+		})
+		if v := uint64(n.M.State().View()); v != 1 {
+			x.Bad("HARNESS", "assumption", "prefix did not reach view 1 (view %d)", v)
+		}
+		blk := kit.NewBlock(1, "B1")
+		var votes []*interfaces.ViewChangeMessage
+		for _, i := range []int{0, 1, 3} {
+			votes = append(votes, n.fac(i, nil).CreateViewChangeMessage(1, 1, nil))
+		}
+		f := n.fac(1, nil)
+		ppb := f.CreatePreprepareMessageContentBuilder(1, 1, blk, kit.HashOf(blk))
+		nv := f.CreateNewViewMessage(1, 1, ppb, interfaces.ExtractConfirmationsFromViewChangeMessages(votes), blk).ToConsensusRawMessage()
+		s.Thread("late-newview", func() { n.M.HandleConsensusMessage(n.Ctx, nv) })
+		v3 := n.fac(3, nil).CreateViewChangeMessage(1, 2, nil).ToConsensusRawMessage()
+		v0again := n.fac(0, nil).CreateViewChangeMessage(1, 2, nil).ToConsensusRawMessage()
+		s.Thread("voters", func() {
+			n.M.HandleConsensusMessage(n.Ctx, v3)
+			n.M.HandleConsensusMessage(n.Ctx, v0again) // a re-delivered vote
+		})
+		var ss []sample
+		observer(n, &ss, 2)
+		addCancel(n, cancel)
+		if !s.Run(20000) {
+			x.Bad("C16", "livelock", "step horizon reached")
+		}
+		props := map[string]bool{}
+		reached2 := false
+		for _, i := range n.Sent {
+			if i.Kind == ref.KNV && i.Hdr.View == 2 {
+				props[i.PP.Hash] = true
+				reached2 = true
+			}
+			if i.Kind == ref.KVC && i.Hdr.View >= 2 {
+				reached2 = true
+			}
+			if i.Kind == ref.KP && i.Hdr.View == 1 && reached2 {
+				x.Bad("C10", "prepare-for-lower-view", "PREPARE for view 1 sent after the node had moved to view 2 (events %v)", tail(n.Events, 10))
+			}
+		}
+		if len(props) > 1 {
+			x.Bad("C10", "two-proposals", "the node signed %d different proposals (NEW_VIEW) for view 2 (events %v)", len(props), tail(n.Events, 10))
+		}
+		nvs := 0
+		for _, i := range n.Sent {
+			if i.Kind == ref.KNV && i.Hdr.View == 2 {
+				nvs++
+			}
+		}
+		if nvs > 1 {
+			x.Bad("C10", "two-newviews", "%d NEW_VIEW messages for view 2", nvs)
+		}
+		finish(x, n, ss, fmt.Sprintf("nv2=%d", nvs))
+	})
+
 	// S-stale-trigger+cancel: an election trigger is already waiting in the worker's queue while the worker is held
 	// inside a slow ValidateBlockProposal; a sync then moves the node to the next height (the trigger becomes stale)
 	// and the context is cancelled around the moment the worker picks the stale trigger up. Shutdown must still be
